@@ -122,6 +122,23 @@ def better_repr(v) -> str:
         if len(v) == 1:
             return "[%s,]" % better_repr(v[0])
         return "[%s]" % ", ".join(better_repr(i) for i in v)
-    # TODO: elif deal with sets and dicts
+    elif isinstance(v, (set, frozenset)):
+        # List the members in an order of our own. Iteration order depends on
+        # hash values, and those vary from one interpreter version to the next,
+        # with PYTHONHASHSEED, and - None before 3.12, NaN since 3.10 - with where
+        # an object happens to live in memory.
+        members = ", ".join(better_repr(i) for i in sorted(v, key=set_member_key))
+        if isinstance(v, frozenset):
+            return "frozenset({%s})" % members if members else "frozenset()"
+        return "{%s}" % members if members else "set()"
+    # TODO: elif deal with dicts
     else:
         return repr(v)
+
+
+def set_member_key(v):
+    """Sort key for the members of a set constant: real numbers in numeric
+    order (NaN cannot be compared), then everything else by type and text."""
+    if isinstance(v, (int, float)) and v == v:
+        return (0, v, "")
+    return (1, 0, type(v).__name__ + " " + better_repr(v))
